@@ -565,6 +565,34 @@ def w_sdf(idx):
 
 
 # ---- entry points ------------------------------------------------------------------------------------------------------------------
+def w_peri(chunk):
+    """aromatic form of one Kekule structure must not depend on the atom order (peri-fused aza tautomers, oracles/o05_peri.py)"""
+    _setup()
+    from chython import smiles
+    from oracles import o05_peri as P
+    n, keys, viol = 0, [], []
+    for smi, k in chunk:
+        res = {}
+        for t in P.spellings(smi, k, env.SEED):
+            try:
+                m = smiles(t)
+                m.thiele()
+                res.setdefault(format(m, '!s'), t)
+            except Exception as e:
+                viol.append((f'X-exception:peri:{smi}', f'{type(e).__name__}: {e} while reading / aromatising the Kekule spelling {t} of {smi}',
+                             {'kind': 'peri', 'structure': smi, 'spelling': t}))
+                break
+            n += 1
+        if len(res) > 1:
+            forms = sorted(res.items())
+            viol.append((f'N-numbering-peri:{smi}', f'{smi}: thiele() of the same Kekule structure gives {len(res)} aromatic forms depending on the atom order: '
+                                                     f'{forms[0][0]} from {forms[0][1]}, {forms[1][0]} from {forms[1][1]}',
+                         {'kind': 'peri', 'structure': smi, 'spellings': [v for _, v in forms]}))
+        elif res and next(iter(res)) != format(smiles(smi), '!s'):
+            keys.append(f'peri:{smi}')          # non-trivial: aromatising moved something relative to the RDKit spelling
+    return n, keys, viol
+
+
 def bounded(run):
     import os
     from bounded import domains
@@ -638,6 +666,17 @@ def bounded(run):
         if nsdf:
             collect(pmap(w_sdf, [list(range(nsdf))[i::16] for i in range(16)]), 'arenes')
             run.bound(f'test/arenes.sdf: {nsdf} polycyclic arenes given with aromatic bonds')
+    from oracles import o05_peri as P
+    peri = P.structures()
+    korders = 30 if thorough else 12
+    for n, keys, viol in pmap(w_peri, [[(x, korders) for x in peri[i::16]] for i in range(16)]):
+        run.case(n)
+        for k in keys:
+            run.case(0, key=k)
+        for key, what, wit in viol:
+            run.violation(key, what, witness=wit)
+    run.bound(f'peri-fused aza tautomers: {len(peri)} structures (8 frameworks with a five-membered ring, one or two CH -> N, every tautomer RDKit '
+              f'enumerates that has an N-H) x {korders} seeded atom orders as Kekule strings: one aromatic form per structure')
     report()
     run.bound(f'enumerate_kekule(): first {MAXFORMS} forms per molecule; 2 seeded renumberings per molecule + shuffled insertion order + '
               f'{"numbers with gaps > 999 and descending numbers > 999" if thorough else "one of (numbers with gaps > 999, descending numbers > 999)"}; '
@@ -678,6 +717,15 @@ def replay(rec):
         except Exception as e:
             print('exception', repr(e))
             return want != 'X-exception' and False
+    elif w.get('kind') == 'peri':
+        from chython import smiles
+        forms = set()
+        for t in w.get('spellings') or [w.get('spelling')]:
+            m = smiles(t)
+            m.thiele()
+            forms.add(format(m, '!s'))
+        print('aromatic forms:', sorted(forms))
+        return len(forms) == 1
     elif w.get('kind') == 'empty':
         from chython.containers import MoleculeContainer
         bad, _, _ = check_molecule(MoleculeContainer(), '<empty molecule>', seed=rec.get('seed', 0), full=True)
